@@ -35,8 +35,8 @@ Print Assumptions C06_value_keys_ok_now.
 
 (* Hence for the model of the Go code as it is now: *)
 Theorem C06_eval_expr_eq_tree :
-  forall ts tr, parse_expr ts = Some tr ->
-                eval_expr ts = to_outcome (eval_top apply_go tr).
+  forall orc ts tr, parse_expr ts = Some tr ->
+                    eval_expr orc ts = to_outcome (eval_top (apply_go orc) tr).
 Proof. exact eval_expr_eq_tree. Qed.
 Print Assumptions C06_eval_expr_eq_tree.
 
@@ -44,77 +44,77 @@ Print Assumptions C06_eval_expr_eq_tree.
    textbook tree, IEEE-754 binary64 + - * /, comparisons giving booleans,
    strings in byte order), the model returns exactly that value. *)
 Theorem C06_model_meets_reference :
-  forall ts v, reference ts = Some v -> eval_expr ts = Ok v.
+  forall orc ts v, reference orc ts = Some v -> eval_expr orc ts = Ok v.
 Proof. exact model_meets_reference. Qed.
 Print Assumptions C06_model_meets_reference.
 
 (* The same in the form the check evaluates on the implementation's observations. *)
 Theorem C06_model_meets_spec :
-  forall ts, spec_ok {| c_toks := ts; c_obs := obs_of (eval_expr ts) |} = true.
+  forall orc ts, spec_ok {| c_toks := ts; c_orc := orc; c_obs := obs_of (eval_expr orc ts) |} = true.
 Proof. exact model_meets_spec. Qed.
 Print Assumptions C06_model_meets_spec.
 
 (* The machine's fuel (one unit per fold) always suffices. *)
 Theorem C06_fuel_sufficient :
-  forall ts tr, parse_expr ts = Some tr -> eval_expr ts <> OutOfFuel.
+  forall orc ts tr, parse_expr ts = Some tr -> eval_expr orc ts <> OutOfFuel.
 Proof. exact fuel_sufficient. Qed.
 Print Assumptions C06_fuel_sufficient.
 
 (* Corollaries in the property's words, for all numbers a b c (d). *)
-Theorem C06_mul_before_add : forall a b c,
-  eval_expr [PV (VNum a); PO Add; PV (VNum b); PO Mul; PV (VNum c)]
+Theorem C06_mul_before_add : forall orc a b c,
+  eval_expr orc [PV (VNum a); PO Add; PV (VNum b); PO Mul; PV (VNum c)]
     = Ok (VNum (PrimFloat.add a (PrimFloat.mul b c))) /\
-  eval_expr [PV (VNum a); PO Mul; PV (VNum b); PO Add; PV (VNum c)]
+  eval_expr orc [PV (VNum a); PO Mul; PV (VNum b); PO Add; PV (VNum c)]
     = Ok (VNum (PrimFloat.add (PrimFloat.mul a b) c)).
 Proof. exact mul_before_add. Qed.
 Print Assumptions C06_mul_before_add.
 
-Theorem C06_sub_left_assoc : forall a b c,
-  eval_expr [PV (VNum a); PO Sub; PV (VNum b); PO Sub; PV (VNum c)]
+Theorem C06_sub_left_assoc : forall orc a b c,
+  eval_expr orc [PV (VNum a); PO Sub; PV (VNum b); PO Sub; PV (VNum c)]
     = Ok (VNum (PrimFloat.sub (PrimFloat.sub a b) c)).
 Proof. exact sub_left_assoc. Qed.
 Print Assumptions C06_sub_left_assoc.
 
-Theorem C06_div_left_assoc : forall a b c,
-  eval_expr [PV (VNum a); PO Div; PV (VNum b); PO Div; PV (VNum c)]
+Theorem C06_div_left_assoc : forall orc a b c,
+  eval_expr orc [PV (VNum a); PO Div; PV (VNum b); PO Div; PV (VNum c)]
     = Ok (VNum (PrimFloat.div (PrimFloat.div a b) c)) /\
-  eval_expr [PV (VNum a); PO Div; PV (VNum b); PO Mul; PV (VNum c)]
+  eval_expr orc [PV (VNum a); PO Div; PV (VNum b); PO Mul; PV (VNum c)]
     = Ok (VNum (PrimFloat.mul (PrimFloat.div a b) c)).
 Proof. exact div_left_assoc. Qed.
 Print Assumptions C06_div_left_assoc.
 
-Theorem C06_add_before_compare : forall a b c d,
-  eval_expr [PV (VNum a); PO Add; PV (VNum b); PO Lt; PV (VNum c); PO Mul; PV (VNum d)]
+Theorem C06_add_before_compare : forall orc a b c d,
+  eval_expr orc [PV (VNum a); PO Add; PV (VNum b); PO Lt; PV (VNum c); PO Mul; PV (VNum d)]
     = Ok (VBool (PrimFloat.ltb (PrimFloat.add a b) (PrimFloat.mul c d))).
 Proof. exact add_before_compare. Qed.
 Print Assumptions C06_add_before_compare.
 
-Theorem C06_compare_before_equal : forall a b c d,
-  eval_expr [PV (VNum a); PO Lt; PV (VNum b); PO Eq; PV (VNum c); PO Ge; PV (VNum d)]
+Theorem C06_compare_before_equal : forall orc a b c d,
+  eval_expr orc [PV (VNum a); PO Lt; PV (VNum b); PO Eq; PV (VNum c); PO Ge; PV (VNum d)]
     = Ok (VBool (Bool.eqb (PrimFloat.ltb a b) (PrimFloat.leb d c))).
 Proof. exact compare_before_equal. Qed.
 Print Assumptions C06_compare_before_equal.
 
-Theorem C06_parens_override : forall a b c,
-  eval_expr [PP [PV (VNum a); PO Add; PV (VNum b)]; PO Mul; PV (VNum c)]
+Theorem C06_parens_override : forall orc a b c,
+  eval_expr orc [PP [PV (VNum a); PO Add; PV (VNum b)]; PO Mul; PV (VNum c)]
     = Ok (VNum (PrimFloat.mul (PrimFloat.add a b) c)).
 Proof. exact parens_override. Qed.
 Print Assumptions C06_parens_override.
 
-Theorem C06_cmp_yields_bool : forall o a b,
+Theorem C06_cmp_yields_bool : forall orc o a b,
   In o [Gt; Ge; Lt; Le; Eq; Ne] ->
-  exists r, eval_expr [PV (VNum a); PO o; PV (VNum b)] = Ok (VBool r).
+  exists r, eval_expr orc [PV (VNum a); PO o; PV (VNum b)] = Ok (VBool r).
 Proof. exact cmp_yields_bool. Qed.
 Print Assumptions C06_cmp_yields_bool.
 
 (* a number literal is its float64: 1.0 == 1 compares the same float with itself *)
-Theorem C06_num_eq_by_value : forall a b,
-  eval_expr [PV (VNum a); PO Eq; PV (VNum b)] = Ok (VBool (PrimFloat.eqb a b)).
+Theorem C06_num_eq_by_value : forall orc a b,
+  eval_expr orc [PV (VNum a); PO Eq; PV (VNum b)] = Ok (VBool (PrimFloat.eqb a b)).
 Proof. exact num_eq_by_value. Qed.
 Print Assumptions C06_num_eq_by_value.
 
-Theorem C06_str_lt_is_bytewise : forall s t,
-  eval_expr [PV (VStr s); PO Lt; PV (VStr t)] = Ok (VBool (bytes_ltb s t)).
+Theorem C06_str_lt_is_bytewise : forall orc s t,
+  eval_expr orc [PV (VStr s); PO Lt; PV (VStr t)] = Ok (VBool (bytes_ltb s t)).
 Proof. exact str_lt_is_bytewise. Qed.
 Print Assumptions C06_str_lt_is_bytewise.
 
@@ -126,6 +126,37 @@ Theorem C06_bytes_ltb_is_lexicographic : forall s t,
 Proof. exact bytes_ltb_spec. Qed.
 Print Assumptions C06_bytes_ltb_is_lexicographic.
 
+(* Mixed comparisons (compareTypes, non-strict): strconv enters as the observed
+   tables of the case (or_parse = ConvertGoType(s, Number), or_fmt = FloatToString). *)
+Theorem C06_num_vs_numeric_string : forall orc x s y,
+  lookup_parse (or_parse orc) s = Some (Some y) ->
+  eval_expr orc [PV (VNum x); PO Eq; PV (VStr s)] = Ok (VBool (PrimFloat.eqb x y)) /\
+  eval_expr orc [PV (VStr s); PO Lt; PV (VNum x)] = Ok (VBool (PrimFloat.ltb y x)).
+Proof. exact num_vs_numeric_string. Qed.
+Print Assumptions C06_num_vs_numeric_string.
+
+Theorem C06_num_vs_other_string : forall orc x s t,
+  lookup_parse (or_parse orc) s = Some None -> lookup_fmt (or_fmt orc) x = Some t ->
+  eval_expr orc [PV (VNum x); PO Eq; PV (VStr s)] = Ok (VBool (bytes_eqb t s)) /\
+  eval_expr orc [PV (VNum x); PO Lt; PV (VStr s)] = Ok (VBool (bytes_ltb t s)).
+Proof. exact num_vs_other_string. Qed.
+Print Assumptions C06_num_vs_other_string.
+
+Theorem C06_num_vs_bool : forall orc x b,
+  eval_expr orc [PV (VNum x); PO Eq; PV (VBool b)] =
+  Ok (VBool (PrimFloat.eqb x (if b then PrimFloat.one else PrimFloat.zero))).
+Proof. exact num_vs_bool. Qed.
+Print Assumptions C06_num_vs_bool.
+
+(* table_ok speaks about the induced ORDER of levels only: a harmless regrouping
+   (here: a new threshold symbols.Like that splits the equality group without
+   separating == from !=) keeps it true. *)
+Theorem C06_table_ok_split_groups :
+  table_ok [sym_Multiply; sym_Add; sym_Merge; sym_GreaterThan; sym_Like; sym_EqualTo;
+            sym_LogicalAnd; sym_LogicalOr; sym_Elvis; sym_Assign]%list = true.
+Proof. vm_compute. reflexivity. Qed.
+Print Assumptions C06_table_ok_split_groups.
+
 (* Non-vacuity: a concrete mixed expression with nested parentheses parses, the
    reference gives it a value, the model computes it; spec_ok rejects the value
    a wrong precedence would give (2 + 3 * 4 = 20); table_ok rejects a table in
@@ -133,9 +164,9 @@ Print Assumptions C06_bytes_ltb_is_lexicographic.
 Example C06_nonvacuous :
   (exists tr, parse_expr [PV (VNum PrimFloat.two); PO Add; PP [PV (VNum PrimFloat.one); PO Sub; PP [PV (VNum PrimFloat.two)]];
                           PO Mul; PV (VNum PrimFloat.two); PO Lt; PV (VNum PrimFloat.one)] = Some tr) /\
-  reference [PV (VNum PrimFloat.two); PO Add; PV (VNum PrimFloat.two); PO Mul; PV (VNum PrimFloat.two)]
+  reference no_oracles [PV (VNum PrimFloat.two); PO Add; PV (VNum PrimFloat.two); PO Mul; PV (VNum PrimFloat.two)]
     = Some (VNum (PrimFloat.add PrimFloat.two (PrimFloat.mul PrimFloat.two PrimFloat.two))) /\
   spec_ok {| c_toks := [PV (VNum PrimFloat.two); PO Add; PV (VNum PrimFloat.two); PO Mul; PV (VNum PrimFloat.two)];
-             c_obs := {| o_kind := 0; o_val := VNum (PrimFloat.mul (PrimFloat.add PrimFloat.two PrimFloat.two) PrimFloat.two) |} |} = false /\
+             c_orc := no_oracles; c_obs := {| o_kind := 0; o_val := VNum (PrimFloat.mul (PrimFloat.add PrimFloat.two PrimFloat.two) PrimFloat.two) |} |} = false /\
   table_ok [sym_Add; sym_Multiply; sym_Merge; sym_GreaterThan; sym_EqualTo; sym_LogicalAnd; sym_LogicalOr; sym_Elvis; sym_Assign]%list = false.
 Proof. repeat split; try (eexists; vm_compute; reflexivity); vm_compute; reflexivity. Qed.
